@@ -412,3 +412,9 @@ func TestVerifC04Tokens(t *testing.T) {
 }
 
 var _ = jose.RS256
+
+// FuzzVerifC04Tokens: coverage-guided search (go test -fuzz) over the entropy
+// stream of the generator of TestVerifC04Tokens, with the same oracle.
+func FuzzVerifC04Tokens(f *testing.F) {
+	vRunFuzz(f, "native coverage-guided fuzzing of the entropy stream of the TestVerifC04Tokens generator (rapid.MakeFuzz); same case structure, oracle, non-trivial rule and distinctness rule as TestVerifC04Tokens", c04Gen, c04Check)
+}
